@@ -20,7 +20,7 @@ RULE = ("case = (key, prefix, allow_unicode_keys, path); path in helper (check_k
         "248..252 from 1/2/3/4-byte UTF-8 characters; prefix lengths 0..250 crossing 250 at every split; str and "
         "bytes prefixes. Hypothesis: random keys/prefixes. Oracle: an independent predicate (encode, prepend, <=250 "
         "bytes, none of the 7 forbidden bytes); accepted => returned/transmitted key == prefix+encoded; rejected => "
-        "MemcacheIllegalInputError - also with ignore_exc=True on Client and HashClient, whose key check sits outside the handlers that turn failures into misses (PooledClient's read wrappers swallow every exception under ignore_exc by design, so that combination is not generated). The client's data `encoding` option (ascii/utf-8/latin-1) is varied as well: it must not influence which keys are legal. Keys whose prefixed form is empty are excluded (C02 covers them). Non-trivial: "
+        "MemcacheIllegalInputError - also with ignore_exc=True on Client and HashClient, whose key check sits outside the handlers that turn failures into misses (PooledClient's read wrappers swallow every exception under ignore_exc by design, so that combination is not generated). The client's data `encoding` option (ascii/utf-8/latin-1) is varied as well: it must not influence which keys are legal. Keys whose prefixed form is empty are excluded (C02 covers them). Same-object histories: sequences of 2-3 validations on ONE client object, each token used as a key (client's prefix) or as a `stats` argument (validated with an empty prefix), through Client.check_key(key, prefix) and over the wire on Client/PooledClient/HashClient - the verdict may depend on the token and the prefix only, not on what the object validated before. Non-trivial: "
         "the key contains a forbidden or non-ASCII byte, or prefix+key is within 2 bytes of 250.")
 MANIFEST = {
     "category": "exploration",
@@ -224,6 +224,69 @@ def boundary_cases(tier, seed):
             yield ("k" * klen, "P" * plen, bool(plen & 1), ["client", "pooled", "wire-client", "wire-pooled", "wire-hash"][plen % 5])
 
 
+# ---- the verdict on a key does not depend on what the same object validated before ------------------------------------
+
+H_TOKENS = ["items", b"items", "k" * 245, b"k" * 241, "k\u00e9y", "bad key", b"x" * 250]
+
+
+def history_cases(tier, seed):
+    syms = [(t, role) for t in H_TOKENS for role in ("key", "arg")]
+    for prefix in (b"ns:", b"0123456789"):
+        for au in (False, True):
+            for path in ("check_key", "wire-client", "wire-pooled", "wire-hash"):
+                for n in (2, 3):
+                    for seq in itertools.product(range(len(syms)), repeat=n):
+                        if n == 3 and (tier == "quick" or path != "check_key") and (sum(seq) + len(prefix) + au) % 5:
+                            continue
+                        yield {"prefix": prefix, "au": au, "path": path, "seq": [syms[i] for i in seq]}
+
+
+def check_history(case):
+    """One client object, a sequence of validations in two roles: as a key (with the client's prefix) and as an argument of
+    `stats` (validated with an empty prefix). Each verdict must be what the rule gives for that token and that prefix."""
+    prefix, au, path = case["prefix"], case["au"], case["path"]
+    roles = {}
+    mixed = False
+    if path == "check_key":
+        c = Client(("h", 1), allow_unicode_keys=au, key_prefix=prefix)
+        env = None
+    else:
+        env = Env()
+        c = env.client({"wire-client": "client", "wire-pooled": "pooled", "wire-hash": "hash"}[path], key_prefix=prefix, allow_unicode_keys=au)
+    for i, (tok, role) in enumerate(case["seq"]):
+        p = prefix if role == "key" else b""
+        want = spec(tok, p, au)
+        tb = tok.encode("utf-8") if isinstance(tok, str) else tok
+        if roles.setdefault(tb, role) != role:
+            mixed = True
+        desc = "step %d (%r as %s) of %r on one object, prefix=%r allow_unicode_keys=%r via %s" % (
+            i, tok if len(tok) < 30 else (tok[:5], len(tok)), role, [(t if len(t) < 30 else (t[:5], len(t)), r) for t, r in case["seq"]], prefix, au, path)
+        if env is None:
+            try:
+                got, exc = c.check_key(tok, p), None
+            except Exception as e:  # noqa: BLE001
+                got, exc = None, e
+        else:
+            lm = len(env.server.log)
+            r = env.call(c.get, tok) if role == "key" else env.call(c.stats, tok)
+            exc = r[1] if r[0] == "exc" and isinstance(r[1], (MemcacheIllegalInputError, TypeError, ValueError, UnicodeError)) else None
+            new = env.server.log[lm:]
+            got = None
+            if exc is None:
+                got = (new[0].get("keys") or new[0].get("args") or [None])[0] if len(new) == 1 else new
+        if want is None:
+            if exc is None:
+                raise Violation(["history", "accepted-illegal", path], "illegal key accepted (%r): %s" % (got, desc))
+            if not isinstance(exc, MemcacheIllegalInputError):
+                raise Violation(["history", "wrong-exception", path, type(exc).__name__], "rejected with %r: %s" % (exc, desc))
+        else:
+            if exc is not None:
+                raise Violation(["history", "rejected-legal", path], "legal key rejected with %r: %s" % (exc, desc))
+            if got != want:
+                raise Violation(["history", "wrong-wire-key", path], "validated/transmitted as %r, the rule gives %r: %s" % (got, want, desc))
+    return mixed, [path, "history", "len=%d" % len(case["seq"])] + (["token-in-two-roles"] if mixed else [])
+
+
 def random_strategy(tier):
     forb = st.sampled_from([chr(b) for b in FORBIDDEN])
     chars = st.one_of(st.characters(min_codepoint=0x21, max_codepoint=0x7E),
@@ -247,6 +310,7 @@ PARTS = [
     Part("full-alphabet-short", "enum", check, cases=full_alphabet_cases, exhaustive=True),
     Part("every-position", "enum", check, cases=position_cases, exhaustive=True),
     Part("length-boundaries", "enum", check, cases=boundary_cases, exhaustive=True),
+    Part("same-object-histories", "enum", check_history, cases=history_cases, exhaustive=True),
     Part("random", "hyp", check, strategy=random_strategy,
          examples={"quick": 1500, "thorough": 60000}, shards={"quick": 4, "thorough": 16}),
 ]
